@@ -603,17 +603,19 @@ def translation(ctx: Ctx):
         body = SUMMARIZER.summarize(m.node)
         bad = []
         n_calls = 0
+        params = [a.arg for a in m.node.args.args if a.arg not in ("self", "cls")]
+        pname = params[0] if params else "column_idx"  # the display position: the method's own (first) parameter
         for n in ast.walk(body):
             if isinstance(n, ast.Call) and isinstance(n.func, ast.Attribute) and u(n.func.value) == "self._measures":
                 n_calls += 1
-                if not n.args or u(n.args[0]) != "self._column_order_signed_indexes[column_idx]":
+                if not n.args or u(n.args[0]) != f"self._column_order_signed_indexes[{pname}]":
                     bad.append(u(n)[:100])
         ctx.ob(
             "display-translation",
             f"cubepart.py::_Slice.{meth}",
-            bad or f"{n_calls} measure call(s), each with self._column_order_signed_indexes[column_idx]",
+            bad or f"{n_calls} measure call(s), each with self._column_order_signed_indexes[{pname}]",
             "the display position is translated to the (signed) payload index before it selects a column of the unassembled blocks",
-            not bad and n_calls >= 1,
+            False if bad else (True if n_calls >= 1 else None),
         )
         ctx.count("display translations")
     ctx.require_min("display translations", 4)
